@@ -215,6 +215,48 @@ func r37GateFirst(c *core.Ctx) {
 	}
 	c.Check(R, "gate-error-returned/main.validateTileMatrixSet", gates[0].Pos(), okRet && len(seen) > 0, "IsQuadTree's error is returned to the caller", "IsQuadTree's verdict is dropped: "+detail)
 
+	// every error produced inside validation is returned: no callee's error is downgraded to a log line
+	// (the "ids start at 0" condition is enforced only through MatrixBoundingBox(0)'s error in DeviationStats)
+	for _, b := range v.SSA.Blocks {
+		for _, in := range b.Instrs {
+			call, ok := in.(*ssa.Call)
+			if !ok || call == gate {
+				continue
+			}
+			var errVal ssa.Value
+			if tup, isTup := call.Type().(*types.Tuple); isTup {
+				if tup.Len() > 0 && types.Identical(tup.At(tup.Len()-1).Type(), types.Universe.Lookup("error").Type()) {
+					errVal = extractOf(call, tup.Len()-1)
+				}
+			} else if types.Identical(call.Type(), types.Universe.Lookup("error").Type()) {
+				errVal = call
+			}
+			if errVal == nil {
+				continue
+			}
+			name := "call"
+			if cal := call.Call.StaticCallee(); cal != nil {
+				name = cal.Name()
+			}
+			okAll, nret := true, 0
+			seenR := map[ssa.Instruction]bool{}
+			for {
+				found, rin := core.Search{Fn: v.SSA, From: call, Target: func(i ssa.Instruction) bool { return core.IsReturn(i) && !seenR[i] }, Edge: nonNilEdges(errVal)}.Run()
+				if !found {
+					break
+				}
+				seenR[rin] = true
+				nret++
+				ret := rin.(*ssa.Return)
+				if !retMayBe(ret.Results[len(ret.Results)-1], errVal, map[ssa.Value]bool{}) {
+					okAll = false
+				}
+			}
+			c.Check(R, "error-returned/main.validateTileMatrixSet/"+name, call.Pos(), okAll && nret > 0, "a non-nil error of "+name+" is returned to the caller",
+				"validation continues (or reports success) although "+name+" returned an error: a tile matrix set the rest of the program cannot work with is accepted")
+		}
+	}
+
 	// (b) residual explicit panics behind the gate
 	reach := core.Reachable(g, v.SSA)
 	gateFields := errorIfFields(c.P, iq)
